@@ -9,9 +9,12 @@ pub open spec fn v_edge(v: NfaV, cls: ClsF, a: int, lab: Option<char>, b: int) -
     }
 }
 pub struct VPath { pub nodes: Seq<int>, pub labs: Seq<Option<char>> }
+#[verifier::opaque]
+pub open spec fn edges_ok(v: NfaV, cls: ClsF, p: VPath) -> bool {
+    forall|i: int| 0 <= i < p.labs.len() ==> v_edge(v, cls, #[trigger] p.nodes[i], p.labs[i], p.nodes[i + 1])
+}
 pub open spec fn is_path(v: NfaV, cls: ClsF, p: VPath) -> bool {
-    p.nodes.len() == p.labs.len() + 1
-        && forall|i: int| 0 <= i < p.labs.len() ==> v_edge(v, cls, #[trigger] p.nodes[i], p.labs[i], p.nodes[i + 1])
+    p.nodes.len() == p.labs.len() + 1 && edges_ok(v, cls, p)
 }
 pub open spec fn lab_word(l: Option<char>) -> Seq<char> { match l { Some(c) => seq![c], None => Seq::empty() } }
 /// the word read along the labels
@@ -60,12 +63,14 @@ pub open spec fn path_skip(p: VPath, i: int) -> VPath { VPath { nodes: p.nodes.s
 pub proof fn lemma_lang_refl(v: NfaV, cls: ClsF, a: int)
     ensures v_lang(v, cls, a, a, Seq::<char>::empty())
 {
+    reveal(edges_ok);
     assert(path_from_to(v, cls, path_empty(a), a, a, Seq::<char>::empty()));
 }
 pub proof fn lemma_lang_edge(v: NfaV, cls: ClsF, a: int, l: Option<char>, b: int)
     requires v_edge(v, cls, a, l, b)
     ensures v_lang(v, cls, a, b, lab_word(l))
 {
+    reveal(edges_ok);
     lemma_labs_word_one(l);
     let p = path_edge(a, l, b);
     assert(is_path(v, cls, p));
@@ -75,6 +80,7 @@ pub proof fn lemma_lang_cat(v: NfaV, cls: ClsF, a: int, m: int, b: int, w1: Seq<
     requires v_lang(v, cls, a, m, w1), v_lang(v, cls, m, b, w2)
     ensures v_lang(v, cls, a, b, w1 + w2)
 {
+    reveal(edges_ok);
     let p = choose|p: VPath| #[trigger] path_from_to(v, cls, p, a, m, w1);
     let q = choose|q: VPath| #[trigger] path_from_to(v, cls, q, m, b, w2);
     let r = path_cat(p, q);
@@ -106,6 +112,7 @@ pub proof fn lemma_path_split(v: NfaV, cls: ClsF, p: VPath, i: int)
         labs_word(p.labs) == labs_word(path_take(p, i).labs) + labs_word(path_skip(p, i).labs),
         path_skip(p, i).labs.len() == p.labs.len() - i,
 {
+    reveal(edges_ok);
     let a = path_take(p, i);
     let b = path_skip(p, i);
     assert forall|k: int| 0 <= k < a.labs.len() implies v_edge(v, cls, #[trigger] a.nodes[k], a.labs[k], a.nodes[k + 1]) by {
@@ -117,4 +124,11 @@ pub proof fn lemma_path_split(v: NfaV, cls: ClsF, p: VPath, i: int)
     }
     assert(p.labs =~= a.labs + b.labs);
     lemma_labs_word_concat(a.labs, b.labs);
+}
+
+pub proof fn lemma_path_len(v: NfaV, cls: ClsF, p: VPath)
+    requires is_path(v, cls, p)
+    ensures p.nodes.len() == p.labs.len() + 1
+{
+    reveal(edges_ok);
 }
